@@ -82,6 +82,36 @@ Lemma step0_wg s : s_pc s = ACWg ->
   /\ s_closed (step0 s) = s_closed s /\ add_pc (s_pc (step0 s)) = false.
 Proof. intros H. unfold step0, sstep. rewrite H. cbn. auto. Qed.
 
+(** Facts about a caller step with any latch value / returned block. *)
+Lemma sstep_sub_prefix e fb s : prefix_of (s_sub s) (s_sub (sstep e fb s)).
+Proof.
+  unfold sstep. destruct (s_pc s); try (apply prefix_of_refl); try (eexists; reflexivity);
+    try (destruct e; apply prefix_of_refl).
+  - destruct (s_script s) as [|[] r]; cbn; try apply prefix_of_refl;
+      repeat match goal with |- context [if ?c then _ else _] => destruct c end;
+      try (destruct e); cbn; apply prefix_of_refl.
+  - destruct (isnil b || is_some err); [apply prefix_of_refl|]. unfold write_iter. apply prefix_of_refl.
+Qed.
+
+Lemma sstep_data_prefix e fb s : prefix_of (s_data s) (s_data (sstep e fb s)).
+Proof.
+  unfold sstep. destruct (s_pc s); try (apply prefix_of_refl); try (destruct e; apply prefix_of_refl).
+  - destruct (s_script s) as [|[] r]; cbn; try apply prefix_of_refl;
+      repeat match goal with |- context [if ?c then _ else _] => destruct c end;
+      try (destruct e); cbn; apply prefix_of_refl.
+  - destruct (isnil b || is_some err); [apply prefix_of_refl|]. unfold write_iter. cbn. eexists; reflexivity.
+Qed.
+
+Lemma sstep_eof_err e fb s : is_some e = true -> s_eof s = false -> s_eof (sstep e fb s) = false.
+Proof.
+  intros He H. destruct e as [x|]; [|discriminate]. unfold sstep.
+  destruct (s_pc s); try assumption; cbn; try assumption.
+  - destruct (s_script s) as [|[] r]; cbn; try assumption;
+      repeat match goal with |- context [if ?c then _ else _] => destruct c end; cbn; assumption.
+  - destruct (isnil b || is_some err); [assumption|]. unfold write_iter. assumption.
+  - reflexivity.
+Qed.
+
 Section ConcProofs.
   Variable deflate : Z -> list Z -> list Z.
   Variable crc32 : list Z -> Z.
@@ -93,8 +123,9 @@ Section ConcProofs.
   Hypothesis Hs : hdr_small h.
 
   Definition M (p : list Z) : list Z := member_of deflate crc32 lvl h p.
-  Definition stepc := step deflate crc32 pm guard ovf lvl h no_fault.
-  Definition runc := run deflate crc32 pm guard ovf lvl h no_fault.
+  Variable fault : Z -> bool.   (* fault plan of the underlying writer *)
+  Definition stepc := step deflate crc32 pm guard ovf lvl h fault.
+  Definition runc := run deflate crc32 pm guard ovf lvl h fault.
 
   Definition entry_ok (c : comp) (p : list Z) : Prop :=
     c_err c = None /\ small p /\
@@ -141,7 +172,7 @@ Section ConcProofs.
               | ERange | EExit => x_held st = None
               | EFlushWait => exists c, x_held st = Some c
               | EWrite => exists c, x_held st = Some c /\ c_stage c = SFlushed
-              | EDone => exists c, x_held st = Some c /\ clean c /\ c_stage c = SFlushed
+              | EDone => exists c, x_held st = Some c /\ clean c /\ c_stage c = SFlushed /\ c_block c = []
               end;
     ci_exit : x_epc st = EExit -> x_queue st = [] /\ x_qclosed st = true;
     ci_qclosed : x_qclosed st = s_closed (x_api st);
@@ -244,8 +275,8 @@ Section ConcProofs.
       + destruct ci_held0 as [c ->]. eexists; reflexivity.
       + destruct ci_held0 as [c [-> Hc]]. eexists; split; [reflexivity|].
         unfold f, task_on. rewrite Hc. cbn. rewrite andb_false_r. assumption.
-      + destruct ci_held0 as [c [-> [Hc Hst]]]. eexists; split; [reflexivity|].
-        unfold f, task_on. rewrite Hst. cbn. rewrite andb_false_r. split; assumption.
+      + destruct ci_held0 as [c [-> [Hc [Hst Hbk]]]]. eexists; split; [reflexivity|].
+        unfold f, task_on. rewrite Hst. cbn. rewrite andb_false_r. auto.
     - intros H. destruct (ci_exit0 H) as [-> ?]. auto.
   Qed.
 
@@ -273,9 +304,10 @@ Section ConcProofs.
     try solve [intros Hx; match goal with H : _ -> _ = EExit |- _ => specialize (H Hx); discriminate end];
     try solve [intros Hx; match goal with H : _ -> _ /\ _ |- _ => destruct (H Hx); auto end].
 
-  Lemma emit_inv script st : CInv script st -> CInv script (emit_step no_fault st).
+  Lemma emit_inv script st :
+    CInv script st -> (x_epc st = EWrite -> fault (x_nwr st) = false) -> CInv script (emit_step fault st).
   Proof.
-    intros I. pose proof I as [Ierr Ipan Iwf Iorb Iwait Iact Iloc Ichain Iqwg Isent Iheld Iexit Iqc Ieof].
+    intros I Hf. pose proof I as [Ierr Ipan Iwf Iorb Iwait Iact Iloc Ichain Iqwg Isent Iheld Iexit Iqc Ieof].
     unfold emit_step. destruct (x_epc st) eqn:Hepc.
     - (* ERange *)
       destruct (x_queue st) as [|c q] eqn:Hq.
@@ -292,7 +324,7 @@ Section ConcProofs.
       assert (Hpend : pending st = c :: x_queue st) by (unfold pending, held_pending; rewrite Hepc, Hc; reflexivity).
       destruct (pending_cons_entry st c (x_queue st) ps Hpend C2) as (p & ps' & -> & [E1 [E2 E3]] & C2').
       rewrite Hst in E3. destruct E3 as [Ebuf Eblk].
-      rewrite E1. rewrite Ebuf, M_nonempty. unfold no_fault at 1 2 3.
+      rewrite E1. rewrite Ierr. cbn [is_some]. rewrite Ebuf, M_nonempty. rewrite (Hf eq_refl).
       assert (Heof : s_eof (x_api st) = false).
       { destruct (s_eof (x_api st)) eqn:E; [|reflexivity]. specialize (Ieof eq_refl). congruence. }
       assert (Hns : nonsent c = true) by (unfold nonsent; rewrite Hst; reflexivity).
@@ -311,8 +343,8 @@ Section ConcProofs.
         * cbn [forallb] in Isent. apply andb_prop in Isent. tauto.
       + eexists; split; [reflexivity|]. cbn. repeat split; auto.
     - (* EDone *)
-      destruct Iheld as [c [Hc [[Hb He] Hst]]]. rewrite Hc.
-      destruct (zlen (x_waiting st) <? x_cap st); [|assumption]. rewrite Iwf.
+      destruct Iheld as [c [Hc [[Hb He] [Hst Hbk]]]]. rewrite Hc.
+      destruct (zlen (x_waiting st) <? x_cap st); [|assumption].
       assert (Hpend : pending st = x_queue st) by (unfold pending, held_pending; rewrite Hepc; reflexivity).
       pose proof (count_nonsent_nonneg (x_queue st)) as Hnn.
       rewrite Hpend in *.
@@ -429,7 +461,7 @@ Section ConcProofs.
     - destruct (x_epc st); try (rewrite Iheld; reflexivity).
       + destruct Iheld as [c ->]. eexists; reflexivity.
       + destruct Iheld as [c [-> Hc]]. eexists; split; [reflexivity|]. unfold f. rewrite mark_flushed; assumption.
-      + destruct Iheld as [c [-> [Hc Hst]]]. eexists; split; [reflexivity|]. unfold f. rewrite mark_flushed by assumption. auto.
+      + destruct Iheld as [c [-> [Hc [Hst Hbk]]]]. eexists; split; [reflexivity|]. unfold f. rewrite mark_flushed by assumption. auto.
     - intros Hx. destruct (Iexit Hx) as [-> ?]. auto.
     - rewrite step0_closed by assumption. assumption.
     - rewrite step0_eof by assumption. assumption.
@@ -523,9 +555,10 @@ Section ConcProofs.
   Qed.
 
   Lemma api_step_inv script st :
-    CInv script st -> CInv script (api_step deflate crc32 pm guard ovf lvl h no_fault st).
+    CInv script st -> (s_pc (x_api st) = ACWg -> x_epc st = EExit -> fault (x_nwr st) = false) ->
+    CInv script (api_step deflate crc32 pm guard ovf lvl h fault st).
   Proof.
-    intros I.
+    intros I Hf.
     pose proof I as [Ierr Ipan Iwf Iorb Iwait Iact Iloc Ichain Iqwg Isent Iheld Iexit Iqc Ieof].
     pose proof (api_inv _ _ I) as SI.
     unfold api_step. rewrite Ierr, (fb_nil st Iwait). fold step0. fold (step0 (x_api st)).
@@ -582,21 +615,24 @@ Section ConcProofs.
     - (* ACCloseQ *) apply closeq_inv; auto.
     - (* ACWg *)
       destruct (x_epc st) eqn:Hepc; try assumption.
-      unfold no_fault. change (sstep None [] (x_api st)) with (step0 (x_api st)). apply wg_inv; auto.
+      rewrite (Hf eq_refl eq_refl). change (sstep None [] (x_api st)) with (step0 (x_api st)). apply wg_inv; auto.
     - (* ADone *) apply same_inv; auto; try (rewrite Hpc; discriminate); unfold submits; rewrite Hpc; reflexivity.
   Qed.
 
-  Lemma step_inv script t st : CInv script st -> CInv script (stepc t st).
+  Lemma step_inv script t st :
+    CInv script st -> fault (x_nwr st) = false -> CInv script (stepc t st).
   Proof.
-    intros I. unfold stepc, step. destruct t as [|[|i]].
-    - apply api_step_inv. assumption.
-    - apply emit_inv. assumption.
+    intros I Hf. unfold stepc, step. destruct t as [|[|i]].
+    - apply api_step_inv; auto.
+    - apply emit_inv; auto.
     - apply task_inv. assumption.
   Qed.
 
-  Lemma run_inv script sched : forall st, CInv script st -> CInv script (runc sched st).
+  Lemma run_inv script sched :
+    (forall k, fault k = false) -> forall st, CInv script st -> CInv script (runc sched st).
   Proof.
-    induction sched as [|t r IH]; intros st I; [assumption|]. cbn [runc run]. apply IH. apply step_inv. assumption.
+    intros Hnf. induction sched as [|t r IH]; intros st I; [assumption|]. cbn [runc run]. apply IH.
+    apply step_inv; [assumption|apply Hnf].
   Qed.
 
   Lemma cinit_inv wc script : CInv script (cinit wc script).
@@ -609,6 +645,136 @@ Section ConcProofs.
   Qed.
 
   Lemma run_conc_inv wc script sched :
-    CInv script (run_conc deflate crc32 pm guard ovf lvl h no_fault wc script sched).
-  Proof. unfold run_conc. apply run_inv. apply cinit_inv. Qed.
+    (forall k, fault k = false) ->
+    CInv script (run_conc deflate crc32 pm guard ovf lvl h fault wc script sched).
+  Proof. intros Hnf. unfold run_conc. apply run_inv; [assumption|]. apply cinit_inv. Qed.
+
+  (** ---- runs with a fault plan ------------------------------------------- *)
+  (** After the first failed underlying Write the error is latched and nothing
+      more is delivered: what was delivered stays the members of a prefix of
+      the submitted blocks. *)
+  Definition Frozen (st : cst) : Prop :=
+    x_err st <> None /\ s_eof (x_api st) = false /\
+    exists done, prefix_of done (s_sub (x_api st)) /\ x_out st = map M done /\ Forall small done
+                 /\ prefix_of (concat done) (s_data (x_api st)).
+
+  Lemma Frozen_upd st st' :
+    Frozen st -> x_err st' <> None -> x_out st' = x_out st ->
+    (x_api st' = x_api st \/ exists e fb, is_some e = true /\ x_api st' = sstep e fb (x_api st)) ->
+    Frozen st'.
+  Proof.
+    intros (He & Hf & done & D1 & D2 & D3 & D4) He' Ho [Ha|(e & fb & Hse & Ha)]; unfold Frozen; rewrite Ha.
+    - split; [assumption|]. split; [assumption|]. exists done. rewrite Ho. auto.
+    - split; [assumption|]. split; [apply sstep_eof_err; assumption|]. exists done. rewrite Ho.
+      split; [eapply prefix_of_trans; [exact D1|apply sstep_sub_prefix]|].
+      split; [assumption|]. split; [assumption|].
+      eapply prefix_of_trans; [exact D4|apply sstep_data_prefix].
+  Qed.
+
+  Lemma set_err_some e x : e <> None -> set_err e x <> None.
+  Proof. destruct e; cbn; congruence. Qed.
+  Lemma set_err_some' e x : set_err e x <> None.
+  Proof. destruct e; cbn; congruence. Qed.
+
+  Lemma frozen_step t st : Frozen st -> Frozen (stepc t st).
+  Proof.
+    intros F. pose proof F as (He & _).
+    destruct (x_err st) as [x|] eqn:Hx; [|congruence].
+    unfold stepc, step. destruct t as [|[|i]].
+    - (* caller *)
+      unfold api_step. rewrite Hx.
+      repeat match goal with
+             | |- Frozen (match ?y with _ => _ end) => destruct y eqn:?
+             | |- Frozen (if ?y then _ else _) => destruct y eqn:?
+             end;
+        try assumption;
+        (apply (Frozen_upd st); [assumption| unfold map_pending; proj; rewrite ?Hx; congruence | unfold map_pending; proj; reflexivity |
+                                 unfold map_pending; proj; first [left; reflexivity | right; eexists; eexists; split; [|reflexivity]; reflexivity]]).
+    - (* emitter *)
+      unfold emit_step. rewrite Hx. cbn [is_some].
+      repeat match goal with
+             | |- Frozen (match ?y with _ => _ end) => destruct y eqn:?
+             | |- Frozen (if ?y then _ else _) => destruct y eqn:?
+             end;
+        try assumption;
+        (apply (Frozen_upd st); [assumption| proj; rewrite ?Hx; cbn; congruence | proj; reflexivity | proj; left; reflexivity]).
+    - apply (Frozen_upd st); [assumption| unfold map_pending; proj; rewrite Hx; congruence | reflexivity | left; reflexivity].
+  Qed.
+
+  Lemma chain_frozen script st :
+    CInv script st -> s_eof (x_api st) = false ->
+    exists done, prefix_of done (s_sub (x_api st)) /\ x_out st = map M done /\ Forall small done
+                 /\ prefix_of (concat done) (s_data (x_api st)).
+  Proof.
+    intros I He. pose proof (api_inv _ _ I) as SI.
+    destruct (ci_chain _ _ I) as (done & ps & C1 & C2 & C3 & C4). exists done.
+    split; [exists ps; assumption|]. rewrite He, app_nil_r in C3. split; [assumption|].
+    split. { pose proof (si_sub _ _ SI) as X. rewrite C1 in X. apply Forall_app in X. tauto. }
+    rewrite <- (si_data _ _ SI), C1. exists (concat ps ++ pend (x_api st)). rewrite concat_app, <- app_assoc. reflexivity.
+  Qed.
+
+  (** The failing Write itself: the latch is set, nothing is delivered. *)
+  Lemma emit_frozen script st :
+    CInv script st -> x_epc st = EWrite -> fault (x_nwr st) = true -> Frozen (emit_step fault st).
+  Proof.
+    intros I Hepc Hf. pose proof I as [Ierr Ipan Iwf Iorb Iwait Iact Iloc Ichain Iqwg Isent Iheld Iexit Iqc Ieof].
+    assert (Heof : s_eof (x_api st) = false).
+    { destruct (s_eof (x_api st)) eqn:E; [|reflexivity]. specialize (Ieof eq_refl). congruence. }
+    destruct (chain_frozen script st I Heof) as (done & D1 & D2 & D3 & D4).
+    unfold emit_step. rewrite Hepc. rewrite Hepc in Iheld. destruct Iheld as [c [Hc Hst]]. rewrite Hc.
+    destruct Ichain as (done' & ps & C1 & C2 & C3 & C4).
+    assert (Hpend : pending st = c :: x_queue st) by (unfold pending, held_pending; rewrite Hepc, Hc; reflexivity).
+    destruct (pending_cons_entry st c (x_queue st) ps Hpend C2) as (p & ps' & -> & [E1 [E2 E3]] & C2').
+    rewrite Hst in E3. destruct E3 as [Ebuf Eblk].
+    rewrite E1, Ierr. cbn [is_some]. rewrite Ebuf, M_nonempty, Hf.
+    split; [proj; cbn; discriminate|]. split; [proj; assumption|]. exists done. proj. auto.
+  Qed.
+
+  Lemma wg_frozen script st :
+    CInv script st -> s_pc (x_api st) = ACWg -> x_epc st = EExit -> fault (x_nwr st) = true ->
+    Frozen (api_step deflate crc32 pm guard ovf lvl h fault st).
+  Proof.
+    intros I Hpc Hepc Hf. pose proof I as [Ierr Ipan Iwf Iorb Iwait Iact Iloc Ichain Iqwg Isent Iheld Iexit Iqc Ieof].
+    pose proof (api_inv _ _ I) as SI.
+    assert (Heof : s_eof (x_api st) = false) by (apply (si_close_eof _ _ SI); rewrite Hpc; reflexivity).
+    destruct (chain_frozen script st I Heof) as (done & D1 & D2 & D3 & D4).
+    unfold api_step. rewrite Hpc, Hepc, Ierr, Hf.
+    split; [proj; discriminate|]. proj.
+    split; [apply sstep_eof_err; [reflexivity|assumption]|].
+    exists done. split; [eapply prefix_of_trans; [exact D1|apply sstep_sub_prefix]|].
+    split; [assumption|]. split; [assumption|]. eapply prefix_of_trans; [exact D4|apply sstep_data_prefix].
+  Qed.
+
+  Definition FInv (script : list wop) (st : cst) : Prop := CInv script st \/ Frozen st.
+
+  Lemma epc_dec (a : epc) : a = EWrite \/ a <> EWrite.
+  Proof. destruct a; auto; right; discriminate. Qed.
+  Lemma epc_dec' (a : epc) : a = EExit \/ a <> EExit.
+  Proof. destruct a; auto; right; discriminate. Qed.
+  Lemma apc_dec_wg (a : apc) : a = ACWg \/ a <> ACWg.
+  Proof. destruct a; auto; right; discriminate. Qed.
+
+  Lemma step_any script t st : FInv script st -> FInv script (stepc t st).
+  Proof.
+    intros [I|F]; [|right; apply frozen_step; assumption].
+    destruct (fault (x_nwr st)) eqn:Hf; [|left; apply step_inv; auto].
+    unfold stepc, step. destruct t as [|[|i]].
+    - destruct (apc_dec_wg (s_pc (x_api st))) as [Hpc|Hpc]; [destruct (epc_dec' (x_epc st)) as [He|He]|].
+      + right. apply (wg_frozen script); assumption.
+      + left. apply api_step_inv; [assumption|]. intros _ E. contradiction.
+      + left. apply api_step_inv; [assumption|]. intros E. contradiction.
+    - destruct (epc_dec (x_epc st)) as [He|He].
+      + right. apply (emit_frozen script); assumption.
+      + left. apply emit_inv; [assumption|]. intros E. contradiction.
+    - left. apply task_inv. assumption.
+  Qed.
+
+  Lemma run_any script sched : forall st, FInv script st -> FInv script (runc sched st).
+  Proof.
+    induction sched as [|t r IH]; intros st I; [assumption|]. cbn [runc run]. apply IH. apply step_any. assumption.
+  Qed.
+
+  Lemma run_conc_any wc script sched :
+    FInv script (run_conc deflate crc32 pm guard ovf lvl h fault wc script sched).
+  Proof. unfold run_conc. apply run_any. left. apply cinit_inv. Qed.
 End ConcProofs.
